@@ -201,6 +201,8 @@ pub struct Io {
     pub kinds: [u64; 4],
     /// highest byte position (exclusive) ever requested by a read
     pub max_read_end: u64,
+    /// cursor position of the handle after its most recent call
+    pub last_pos: u64,
     pub hook: Option<Arc<dyn Fn() + Send + Sync>>,
 }
 
@@ -225,6 +227,7 @@ impl Io {
             bytes_moved: 0,
             kinds: [0; 4],
             max_read_end: 0,
+            last_pos: 0,
             hook: None,
         }
     }
@@ -448,8 +451,12 @@ impl Read for SimDisk {
             Decision::ZeroWrite => unreachable!(),
         };
         let granted = *res.as_ref().unwrap_or(&0) as u64;
-        lock(&self.io).log(call, OpKind::Read, self.pos, req, granted, d);
         self.pos += granted;
+        {
+            let mut g = lock(&self.io);
+            g.log(call, OpKind::Read, self.pos - granted, req, granted, d);
+            g.last_pos = self.pos;
+        }
         res
     }
 }
@@ -477,8 +484,12 @@ impl Write for SimDisk {
             Decision::EofEarly => unreachable!(),
         };
         let granted = *res.as_ref().unwrap_or(&0) as u64;
-        lock(&self.io).log(call, OpKind::Write, self.pos, req, granted, d);
         self.pos += granted;
+        {
+            let mut g = lock(&self.io);
+            g.log(call, OpKind::Write, self.pos - granted, req, granted, d);
+            g.last_pos = self.pos;
+        }
         res
     }
     fn flush(&mut self) -> io::Result<()> {
@@ -523,7 +534,11 @@ impl Seek for SimDisk {
                 }
             }
         };
-        lock(&self.io).log(call, OpKind::Seek, self.pos, 0, 0, d);
+        {
+            let mut g = lock(&self.io);
+            g.log(call, OpKind::Seek, self.pos, 0, 0, d);
+            g.last_pos = self.pos;
+        }
         res
     }
 }
@@ -557,6 +572,9 @@ pub struct IoStats {
 pub fn stats(io: &IoH) -> IoStats {
     let g = lock(io);
     IoStats { calls: g.calls, digest: g.digest, fired: g.fired.clone(), bytes: g.bytes_moved, kinds: g.kinds, max_read_end: g.max_read_end }
+}
+pub fn last_pos(io: &IoH) -> u64 {
+    lock(io).last_pos
 }
 pub fn events(io: &IoH) -> Vec<Event> {
     lock(io).events.clone()
